@@ -25,9 +25,13 @@ from ..core import Violation, SimFault, HarnessError, check, close, maxdiff, fin
 
 CLASSES = ["TimeAxis", "FrequencyAxis", "ValueAxis", "DFunctionReal", "DFunctionComplex", "Operator", "SelfAdjoint",
            "Hamiltonian", "RDM", "Molecule", "Aggregate", "CorrelationFunction", "SpectralDensity", "AbsSpectrum",
-           "AbsSpectrumContainer", "TwoDResponse", "TwoDResponseContainer", "RDMEvolution", "LindbladTensor", "LindbladOps"]
-BASIS_CLASSES = ("Operator", "SelfAdjoint", "Hamiltonian", "RDM", "RDMEvolution", "LindbladTensor", "LindbladOps")
-CTX_CLASSES = ("SelfAdjoint", "Hamiltonian", "RDM")
+           "AbsSpectrumContainer", "TwoDResponse", "TwoDResponseContainer", "RDMEvolution", "LindbladTensor", "LindbladOps",
+           "SelfAdjointComplex"]
+BASIS_CLASSES = ("Operator", "SelfAdjoint", "Hamiltonian", "RDM", "RDMEvolution", "LindbladTensor", "LindbladOps", "SelfAdjointComplex")
+CTX_CLASSES = ("SelfAdjoint", "Hamiltonian", "RDM", "SelfAdjointComplex")
+# classes with real-typed storage are kept out of programs that enter the eigenbasis of a complex Hermitian operator
+# (their presentation there is the subject of a known finding of C04, not of the save/load round trip)
+NOT_WITH_COMPLEX_CONTEXT = ("Hamiltonian", "LindbladOps", "Molecule", "Aggregate")
 UNITS = ["1/cm", "eV", "THz", "meV", "int"]
 FORMATS = [".txt", ".dat", ".npy", ".npz", ".mat"]
 DIM = 3
@@ -60,7 +64,9 @@ class World:
     required_probes = ["save_inside_basis_context_transformed", "load_inside_basis_context", "save_inside_units_context",
                        "load_inside_units_context", "save_and_load_in_different_contexts", "fileobject_parcel", "path_parcel",
                        "scopy", "savedir_loaddir", "export_with_axis", "export_complex", "export_2d", "failed_write_then_good_save",
-                       "nested_basis_and_units", "fault_unwinds", "large_file_rewritten", "two_directories_in_one_session", "several_objects_in_one_file", "imported_axis_saved", "format:.txt", "format:.npy", "format:.npz", "format:.mat", "format:.dat"]
+                       "nested_basis_and_units", "fault_unwinds", "large_file_rewritten", "two_directories_in_one_session", "several_objects_in_one_file", "imported_axis_saved", "format:.txt", "format:.npy", "format:.npz", "format:.mat", "format:.dat",
+                       "complex_basis_context", "save_inside_complex_basis_context", "same_object_exported_again_under_other_units",
+                       "export_matrix_with_a_singleton_dimension"]
     required_faults = ["write_ENOSPC", "F1_simfault"]
     components = {
         "real": ["Saveable.save/load/scopy/savedir/loaddir", "Parcel / load_parcel (dill)", "DataSaveable.save_data/load_data, "
@@ -84,9 +90,13 @@ class World:
 
     def gen(self, rng, tier):
         n = rng.randint(3, 20)
-        classes = list(range(len(CLASSES)))
+        classes = list(range(len(CLASSES) - 1))
         if rng.random() < 0.6:
             classes = rng.sample(classes, rng.randint(2, 7))
+        if rng.random() < 0.15:
+            # swarm member: basis contexts of a complex Hermitian operator (unitary, not orthogonal, transformation)
+            classes = [c for c in classes if CLASSES[c] not in NOT_WITH_COMPLEX_CONTEXT and CLASSES[c] not in ("SelfAdjoint", "RDM")]
+            classes += [CLASSES.index("SelfAdjointComplex"), CLASSES.index("RDM") if False else CLASSES.index("Operator")]
         kinds = ["enter_u", "enter_b", "enter_b", "exit", "exit", "touch", "touch", "save", "save", "save", "load", "load", "load",
                  "scopy", "savedir", "export", "export", "fault", "badsave", "multisave"]
         if rng.random() < 0.3:
@@ -119,7 +129,8 @@ class World:
             elif k == "export":
                 ops.append({"op": "export", "src": rng.choice(["dfun", "dfun", "abs", "oper", "twod"]), "fmt": rng.randrange(len(FORMATS)),
                             "cplx": rng.random() < 0.5, "twod": rng.random() < 0.4, "axis": rng.random() < 0.5,
-                            "pay": rng.randrange(1 << 30), "big": rng.random() < 0.06})
+                            "pay": rng.randrange(1 << 30), "big": rng.random() < 0.06,
+                            "single": rng.choice([0, 0, 0, 0, 1, 2]), "again": rng.random() < 0.5})
         return {"classes": classes, "seed": rng.randrange(1 << 30), "ops": ops}
 
     def fault_variants(self, base, rng):
@@ -223,6 +234,9 @@ class Runner:
             a = g.uniform(-1, 1, size=(N, N))
             h = (a + a.T) / 2.0
             return qr.qm.SelfAdjointOperator(data=h) if cls == "SelfAdjoint" else qr.ReducedDensityMatrix(data=h @ h.T)
+        if cls == "SelfAdjointComplex":
+            a = g.uniform(-1, 1, size=(N, N)) + 1j * g.uniform(-1, 1, size=(N, N))
+            return qr.qm.SelfAdjointOperator(data=(a + a.conj().T) / 2.0)
         if cls == "Hamiltonian":
             a = g.uniform(-100, 100, size=(N, N))
             with qr.energy_units("1/cm"):
@@ -302,7 +316,7 @@ class Runner:
             return {"start": A(o.start), "step": A(o.step), "length": A(o.length), "data": A(o.data)}
         if cls.startswith("DFunction"):
             return {"axis": A(o.axis.data), "data": A(o.data)}
-        if cls in ("Operator", "SelfAdjoint", "RDM", "Hamiltonian", "RDMEvolution", "LindbladTensor"):
+        if cls in ("Operator", "SelfAdjoint", "RDM", "Hamiltonian", "RDMEvolution", "LindbladTensor", "SelfAdjointComplex"):
             return {"data": A(o.data)}
         if cls == "LindbladOps":
             return {"Km": A(o.Km), "Lm": A(o.Lm), "Ld": A(o.Ld)}
@@ -439,6 +453,8 @@ class Runner:
                 return i + 1
             cm = qr.eigenbasis_of(self.items[k].real)
             tag = ("b", k)
+            if self.items[k].cls == "SelfAdjointComplex":
+                self.ctx.probe("complex_basis_context")
         fault = None
         nxt = None
         with_entered = False
@@ -468,6 +484,10 @@ class Runner:
         return nxt if nxt is not None else len(ops)
 
     # ---------------------------------------------------------------- ops
+    def units_now(self):
+        us = [v for t, v in self.stack if t == "u"]
+        return us[-1] if us else "int"
+
     def in_basis_ctx(self):
         return any(t == "b" for t, v in self.stack)
 
@@ -492,6 +512,8 @@ class Runner:
             try:
                 if it.real.get_current_basis() != 0:
                     self.ctx.probe("save_inside_basis_context_transformed")
+                    if any(t == "b" and self.items[v].cls == "SelfAdjointComplex" for t, v in self.stack):
+                        self.ctx.probe("save_inside_complex_basis_context")
             except Exception:
                 pass
         if self.in_units_ctx():
@@ -683,6 +705,12 @@ class Runner:
                 fa = qr.FrequencyAxis(10000.0, n, 10.0)
                 fb = qr.FrequencyAxis(0.0, n, 1.0)
             a = qr.AbsSpectrum(axis=fa, data=y.copy())
+            if op.get("again") and getattr(self, "kept_abs", None) is not None:
+                # the SAME spectrum object is exported once more (possibly under other units than last time)
+                a, y, sig = self.kept_abs
+                if sig != self.units_now():
+                    self.ctx.probe("same_object_exported_again_under_other_units")
+            self.kept_abs = (a, y, self.units_now())
             b = qr.AbsSpectrum(axis=fb, data=numpy.zeros(n))
         elif src == "twod":
             from quantarhei.spectroscopy.twod2 import TwoDResponse
@@ -706,6 +734,11 @@ class Runner:
                 cplx = True
             ta = qr.TimeAxis(1.0, n, 0.5)
             shape = (n, 3) if twod else (n,)
+            single = 0 if op.get("big") else int(op.get("single", 0))
+            if single == 1:
+                shape, twod = (n, 1), True                  # a matrix with one column
+            elif single == 2:
+                shape, twod, with_axis = (1, n), True, False    # a matrix with one row
             y = g.uniform(-1, 1, size=shape)
             if cplx:
                 y = y + 1j * g.uniform(-1, 1, size=shape)
@@ -742,6 +775,11 @@ class Runner:
             raise Violation("import-raises", "%s: reading imported data: %s: %s" % (what, type(e).__name__, e))
         if fmt == ".mat" and not twod:
             got = got.reshape(-1)
+        if src == "dfun" and 1 in y.shape:
+            self.ctx.probe("export_matrix_with_a_singleton_dimension")
+            if fmt in (".txt", ".dat") or with_axis:
+                # text files (and the two-column layout used with an axis) cannot tell a column matrix from a vector
+                got = got.reshape(y.shape) if got.size == y.size else got
         check(got.shape == y.shape and close(got.astype(complex), y.astype(complex), rtol=1e-14, scale=1.0), "imported-equals-exported",
               lambda: "%s: %s" % (what, maxdiff(got.astype(complex), y.astype(complex)) if got.shape == y.shape
                                   else "shape %r vs %r" % (got.shape, y.shape)))
